@@ -457,6 +457,37 @@ func atpcMain(a Args) {
 			}
 		}
 	}
+	// Jobs that take seconds by design (Close's own 5 s timeout, silent peers) are spread over the
+	// list: a worker process runs its batch sequentially.
+	{
+		slowClass := map[string]bool{"c08-sigslow": true, "c08-wfail": true, "c06-witness": true}
+		var fast, slow []atpcs.Job
+		for _, j := range jobs {
+			if slowClass[class[j.ID]] {
+				slow = append(slow, j)
+			} else {
+				fast = append(fast, j)
+			}
+		}
+		if len(slow) > 0 && len(fast) > 0 {
+			var mixed []atpcs.Job
+			k := 0
+			for i, j := range fast {
+				for k < len(slow) && k*len(fast)/len(slow) <= i {
+					mixed = append(mixed, slow[k])
+					k++
+				}
+				mixed = append(mixed, j)
+			}
+			mixed = append(mixed, slow[k:]...)
+			newClass := map[int]string{}
+			for i := range mixed {
+				newClass[i] = class[mixed[i].ID]
+				mixed[i].ID = i
+			}
+			jobs, class = mixed, newClass
+		}
+	}
 	st.Jobs = len(jobs)
 
 	// ---- run and evaluate
